@@ -93,6 +93,10 @@ func (us unstakeTx) Validate(ctx *action.Context, tx action.SignedTx) (bool, err
 		return false, action.ErrStakeAddressMismatch
 	}
 
+	// see stake.go: the amount must fit the int64 conversion of ToCoinWithBase
+	if !ust.Stake.Value.BigInt().IsInt64() {
+		return false, action.ErrInvalidAmount
+	}
 	coin := ust.Stake.ToCoinWithBase(ctx.Currencies)
 	if coin.LessThanEqualCoin(coin.Currency.NewCoinFromInt(0)) {
 		return false, action.ErrInvalidAmount
